@@ -1663,6 +1663,26 @@ def eval_test(an, f, e, env):
         return UNKNOWN
 
 
+def http_status_of(e):
+    """The integer an expression naming an HTTP status stands for: 404,
+    HTTPStatus.NOT_FOUND, http.HTTPStatus.NOT_FOUND(.value),
+    requests.codes.not_found; None when it is not one."""
+    import http
+    if isinstance(e, ast.Constant) and isinstance(e.value, int) and \
+            not isinstance(e.value, bool):
+        return e.value
+    d = dotted(e) or ''
+    if d.endswith('.value'):
+        d = d[:-len('.value')]
+    head, _, name = d.rpartition('.')
+    if head.endswith('HTTPStatus') and name in http.HTTPStatus.__members__:
+        return int(http.HTTPStatus[name])
+    if head.endswith('codes') and name.upper() in \
+            http.HTTPStatus.__members__:
+        return int(http.HTTPStatus[name.upper()])
+    return None
+
+
 def return_exprs_under(an, f, env):
     """The `return` expressions (ast, None for a bare return or falling off
     the end) and ('raise', class) that f can reach when its conditions
